@@ -45,3 +45,29 @@ def spec_files():
 def prepare(tier):
     lw = vlib.extract('pred', 'libzwerg/pred_result.cc', CFG, ROOTS, OUT)
     return {'unit': 'libzwerg/pred_result.hh (via pred_result.cc)', 'functions': lw.report['functions']}
+
+
+def replay(r):
+    op = r.job.name
+    if op not in ('not', 'and', 'or') or not r.cex:
+        return {'reproduced': False, 'note': 'no operator-level counterexample'}
+    exe = os.path.join(OUT, 'native_driver')
+    vlib.native(['g++', '-std=c++14', '-O1', '-I%s/libzwerg' % vlib.REPO, os.path.join(HERE, 'native_driver.cc'), '-o', exe])
+    names = {'0': 'no', '1': 'yes', '2': 'fail'}
+    def code(x):
+        s = str(x)
+        for k, v in (('fail', 2), ('yes', 1), ('no', 0)):
+            if k in s:
+                return v
+        return int(''.join(ch for ch in s if ch.isdigit()) or 0)
+    a, b = code(r.cex.get('in_a', 0)), code(r.cex.get('in_b', 0))
+    rc, out, err, w = vlib.run([exe, op, str(a), str(b)], timeout=20)
+    got = int(out.strip() or -1)
+    if op == 'not':
+        exp = {0: 1, 1: 0, 2: 2}[a]
+    elif op == 'and':
+        exp = 2 if 2 in (a, b) else int(a == 1 and b == 1)
+    else:
+        exp = 2 if 2 in (a, b) else int(a == 1 or b == 1)
+    return {'reproduced': got != exp, 'op': op, 'a': names[str(a)], 'b': names[str(b)],
+            'observed_on_real_code': names.get(str(got), got), 'expected': names[str(exp)]}
